@@ -48,6 +48,12 @@ def run(ck, P):
         succ = [p for p in paths if isinstance(p.ret, Ptr) and p.ret.region != "null"]
         fail = [p for p in paths if isinstance(p.ret, Ptr) and p.ret.region == "null"]
         site = "%s:m_mem_new:size≡%d (mod %d)" % (U, r, ALIGN)
+        if len(succ) > 1 and all(len(p_.allocs) == 1 for p_ in succ):
+            # several paths hand back a non-NULL pointer out of one allocation: one of them must be the allocator's failure
+            ck.ob("C10.1-COVERS", site + " failure is reported", False,
+                  "m_mem_new returns a non-NULL pointer on %d paths, %d of them %s: when the configured allocator fails the caller is handed base+shift of a NULL "
+                  "block instead of NULL" % (len(succ), len(paths) - len(fail) - 1, "without a usable block"))
+            continue
         if len(succ) != 1 or len(succ[0].allocs) != 1:
             raise AnalysisBroken("m_mem_new: expected one successful path with one allocation, got %d path(s)" % len(succ))
         p = succ[0]
@@ -145,6 +151,15 @@ def run(ck, P):
           "m_mem_size returns '%s' under %s: the reported size depends on something other than the block being non-NULL (e.g. it is 0 while the destructor "
           "runs, when refs is already 0)" % (bads[0], bads[1]), path=rules.fmt_path(ms, bads[2]) if bads else None)
 
+    # the counter is as wide as the number of references that can exist; the NULL-tolerant entry points are not declared nonnull
+    hr = P.record("mem_header_t")
+    rf = [f_ for f_ in hr["fields"] if f_["name"] == "refs"]
+    okw = bool(rf) and rf[0]["size"] >= 8
+    ck.ob("C10.4-WHO-WRITES-REFS", "%s:mem_header_t.refs width" % U, okw,
+          "refs is %d bytes wide (size_t)" % (rf[0]["size"] if rf else 0) if okw else
+          "the reference counter is only %d byte(s) wide: it wraps after %d references, the block is destroyed while references remain"
+          % (rf[0]["size"] if rf else 0, 1 << (8 * (rf[0]["size"] if rf else 0))))
+
     ck.rule("C10.5-NULL-OK", "R-GUARD: every dereference of the block argument in m_mem_ref/unref/unrefp/size is dominated by a non-NULL test",
             floor=4)
     for n in ("m_mem_ref", "m_mem_unref", "m_mem_unrefp", "m_mem_size"):
@@ -159,6 +174,10 @@ def run(ck, P):
                         return True
             return False
         uses = [ev for ev in f.events() if _deref_use(ev)]
+        if f.raw.get("nonnull"):
+            ck.ob("C10.5-NULL-OK", f.site("not declared nonnull"), False,
+                  "%s is declared __attribute__((nonnull)): an optimising compiler removes the NULL test in its body, and NULL — which the function documents as "
+                  "tolerated — is dereferenced" % n)
         ok = bool(uses) and all(has(X.facts(f, ev), arg) for ev in uses)
         ck.ob("C10.5-NULL-OK", f.site("NULL tolerated"), ok, "%d use(s) of '%s' all under a non-NULL test: %s" % (len(uses), arg, ok))
 
